@@ -56,6 +56,7 @@ type Engine struct {
 	deadline       time.Time
 	pathSamples    []PathSample
 	solverErrors   []string
+	cuts           map[string]int
 }
 
 type PathSample struct {
@@ -91,8 +92,14 @@ func NewEngine(prog *ssa.Program, cfg Config) *Engine {
 	registerExternals(e)
 	registerSym(e)
 	registerStd(e)
+	registerBits(e)
+	for _, f := range extraExternals {
+		f(e)
+	}
 	return e
 }
+
+var extraExternals []func(e *Engine)
 
 func (e *Engine) resetStats() {
 	e.paths = map[Outcome]int{}
@@ -134,6 +141,15 @@ func (e *Engine) opaquePkg(path string) bool {
 		}
 	}
 	return false
+}
+
+func (e *Engine) noteCut(s string) {
+	e.mu.Lock()
+	if e.cuts == nil {
+		e.cuts = map[string]int{}
+	}
+	e.cuts[s]++
+	e.mu.Unlock()
 }
 
 func (e *Engine) noteUnknownBranch() {
